@@ -37,16 +37,16 @@ const (
 	AExpref // an expression reference (internal)
 	AInterp // *treeInterpreter (internal, first argument of by-expression handlers)
 	// Go universe (C18)
-	ATSliceE  // non-nil typed slice, empty ([]string{}, []T{})
-	ATSliceN  // non-nil typed slice, non-empty
-	ANilPtr   // typed nil pointer
-	APtr      // non-nil pointer to a struct
-	AStruct   // struct value
-	AOMapE    // other map type, empty
-	AOMapN    // other map type, non-empty
-	AOther    // any other Go value (ints, float32, ...)
+	ATSliceE // non-nil typed slice, empty ([]string{}, []T{})
+	ATSliceN // non-nil typed slice, non-empty
+	ANilPtr  // typed nil pointer
+	APtr     // non-nil pointer to a struct
+	AStruct  // struct value
+	AOMapE   // other map type, empty
+	AOMapN   // other map type, non-empty
+	AOther   // any other Go value (ints, float32, ...)
 	// values that are not JSON data (C16)
-	ANumBad  // NaN or ±Inf boxed as a number
+	ANumBad   // NaN or ±Inf boxed as a number
 	ANilSlice // nil []interface{} boxed
 	ANilMap   // nil map[string]interface{} boxed
 	atomEnd
@@ -280,10 +280,10 @@ type AV struct {
 	bad   bool   // L/M: may contain non-JSON elements
 	what  string // O/U/G: description; K: "kind" or "type"
 	agg   *aggVal
-	fld   bool // R: obtained through FieldByName (exported-ness unknown)
+	fld   bool          // R: obtained through FieldByName (exported-ness unknown)
 	fn    *ssa.Function // U: the function value, when known
-	dyn   types.Type // I: the dynamic type, when the value was boxed from a library type with methods
-	tag   string // symbolic origin used by the command-line rule (J-ABS): expr, json(file(flag:input)), ...
+	dyn   types.Type    // I: the dynamic type, when the value was boxed from a library type with methods
+	tag   string        // symbolic origin used by the command-line rule (J-ABS): expr, json(file(flag:input)), ...
 }
 
 type fact struct {
